@@ -144,6 +144,142 @@ def _const_names_used(ctx: Ctx, fn: Func) -> List[str]:
     return out
 
 
+def splitter_vocabulary(ctx: Ctx, rep: Report, rid: str = "R09.5", sel=None):
+    """Every selectable port name is in the splitter's vocabulary, the destination port list ends only at a token
+    that is neither a number nor a known name, and the grammar reads every known name as a source port.
+    Returns (vocab_s, need) for the caller."""
+    folder = ctx.folder
+    if sel is None:
+        sub_ = Report(rep.property_id)
+        sub_.rule("R09.4")
+        sel = selection_table(ctx, sub_)
+    rep.rule(rid)
+    akn = ctx.func("port_name.all_known_names")
+    vocab = folder.fold_straight_function(akn)
+    if not known(vocab) or not isinstance(vocab, (list, set, tuple)):
+        raise AnalysisError("port_name.all_known_names is no longer a foldable straight-line function")
+    vocab_s = set(vocab)
+    rep.instance()
+    need: Dict[str, str] = {}
+    for (proto, plat, major), (tname, table) in sel.items():
+        for name in table:
+            need.setdefault(name, tname)
+    missing = sorted(set(need) - vocab_s)
+    for m in missing:
+        rep.violation(
+            "port_name.all_known_names",
+            f"name {m!r} of {need[m]}",
+            f"port name {m!r} (selectable table {need[m]}) is not in the splitter vocabulary: 'eq {m} log' splits as "
+            f"dstport 'eq' + option '{m} log'",
+            where(akn),
+            inp=f"permit tcp any any eq {m}",
+        )
+    if not missing:
+        rep.ok("all_known_names() ⊇ keys of every selectable table", f"{len(vocab_s)} names cover {len(need)} needed")
+    sp = ctx.func("parsers._parse_dstport_option")
+    uses = False
+    for p in function_paths(ctx.cfg(sp), include_raise=False):
+        for test, truth in p.atoms:
+            for x in ast.walk(test):
+                if isinstance(x, ast.Compare) and any(isinstance(o, ast.In) for o in x.ops):
+                    rhs = resolve_local(x.comparators[0], p.env)
+                    if isinstance(rhs, ast.Call):
+                        r = ctx.prog.resolve_name(sp.module, rhs.func.id) if isinstance(rhs.func, ast.Name) else None
+                        if r is akn:
+                            uses = True
+    if not uses:
+        # the membership test may sit in a local predicate / lambda / comprehension (takewhile(is_port, words))
+        from .common import single_env
+
+        senv = single_env(sp.node)
+        for x in ast.walk(sp.node):
+            if isinstance(x, ast.Compare) and any(isinstance(o, ast.In) for o in x.ops):
+                rhs = x.comparators[0]
+                if isinstance(rhs, ast.Name) and rhs.id in senv:
+                    rhs = senv[rhs.id]
+                if isinstance(rhs, ast.Call) and isinstance(rhs.func, ast.Name) and ctx.prog.resolve_name(sp.module, rhs.func.id) is akn:
+                    uses = True
+    rep.instance()
+    if uses:
+        rep.ok("parsers._parse_dstport_option", "classifies tokens by membership in all_known_names()", where=where(sp))
+    else:
+        rep.violation("parsers._parse_dstport_option", "port/option classification", "the dstport/option splitter no longer tests tokens against all_known_names()", where(sp))
+
+    # a token ends the destination port list only when it is neither a number nor a known name
+    rep.instance()
+    spcfg = ctx.cfg(sp)
+    from .common import loop_body_paths as _lbp, deep_resolve as _dr
+
+    def _is_member_test(t: ast.AST, env) -> bool:
+        rt = _dr(t, env)
+        return isinstance(rt, ast.Compare) and len(rt.ops) == 1 and isinstance(rt.ops[0], ast.In)
+
+    judged = 0
+    bad_path = None
+    for lp in [n for n in spcfg.live if n.kind == "for"]:
+        tvars = {x.id for x in ast.walk(lp.ast.target) if isinstance(x, ast.Name)}
+        for path in _lbp(spcfg, lp):
+            ends = any(nd.kind == "stmt" and isinstance(nd.ast, ast.Break) for nd, _ in path)
+            if not ends:
+                continue
+            judged += 1
+            atoms = [(nd.ast, lab == "T") for nd, lab in path if nd.kind == "cond" and lab in ("T", "F")]
+            not_digit = any(isinstance(t, ast.Call) and isinstance(t.func, ast.Attribute) and t.func.attr == "isdigit" and not tr for t, tr in atoms)
+            not_name = any(isinstance(t, ast.Compare) and len(t.ops) == 1 and isinstance(t.ops[0], ast.In) and not tr and any(isinstance(x, ast.Name) and (x.id in tvars or True) for x in ast.walk(t.left)) for t, tr in atoms)
+            if not (not_digit and not_name):
+                bad_path = (lp, atoms)
+    preds = []
+    for n in ast.walk(sp.node):
+        if isinstance(n, ast.Call) and src(n.func).split(".")[-1] in ("takewhile", "dropwhile") and len(n.args) == 2:
+            pr = n.args[0]
+            body = None
+            if isinstance(pr, ast.Lambda):
+                body = pr.body
+            elif isinstance(pr, ast.Name):
+                h_ = next((x for x in ctx.prog.funcs if x.parent is sp and x.name == pr.id), None)
+                if h_ is not None:
+                    rets = [r for r in own_nodes(h_.node) if isinstance(r, ast.Return)]
+                    body = rets[0].value if len(rets) == 1 else None
+            preds.append((n, body))
+    for n, body in preds:
+        judged += 1
+        ok_pred = isinstance(body, ast.BoolOp) and isinstance(body.op, ast.Or) and len(body.values) == 2 and any(isinstance(v, ast.Call) and isinstance(v.func, ast.Attribute) and v.func.attr == "isdigit" for v in body.values) and any(isinstance(v, ast.Compare) and len(v.ops) == 1 and isinstance(v.ops[0], ast.In) for v in body.values)
+        if not ok_pred:
+            bad_path = (n, [])
+    if bad_path is not None:
+        node_, atoms_ = bad_path
+        at = "; ".join(f"{snippet(t, 30)}={'T' if tr else 'F'}" for t, tr in atoms_) or snippet(getattr(node_, "ast", node_), 60)
+        rep.violation("parsers._parse_dstport_option", f"port list ended on [{at}]", "a token can end the destination port list although it was not found to be neither a number nor a known port name: a port name (e.g. 'login') is read as an option", where(sp), inp="permit tcp any any eq 80 login log")
+    elif judged:
+        rep.ok("parsers._parse_dstport_option: end of the port list", "reached only for a token that is neither a number nor a known name", where=where(sp))
+    else:
+        rep.note("R09.5 end-of-port-list rule: no token loop with an early exit and no takewhile predicate found (not judged)")
+
+    # every known name is accepted where the grammar puts a source port (the source side is split by the regex alone)
+    rep.instance()
+    from .c01 import regex_pieces as _rp
+
+    pe2 = ctx.func("parsers.parse_ace_extended")
+    try:
+        full, _pieces = _rp(ctx, pe2)
+    except AnalysisError:
+        full = None
+    if full is not None:
+        import re as _re2
+
+        rejected = []
+        for nm in sorted(vocab_s):
+            m = _re2.match(full, f"permit tcp any eq {nm} any eq {nm}")
+            if not m or f"eq {nm}" not in [str(g or "").strip() for g in m.groups()]:
+                rejected.append(nm)
+        if rejected:
+            rep.violation("parsers.parse_ace_extended", f"source port names {rejected[:8]}{'...' if len(rejected) > 8 else ''}", f"the ACE grammar does not read these known port names as a source port ({len(rejected)} of {len(vocab_s)}): the line the renderer writes for them is refused", where(pe2), inp=f"permit tcp any eq {rejected[0]} any")
+        else:
+            rep.ok("parsers.parse_ace_extended: source port names", f"all {len(vocab_s)} known names are read as a source port", where=where(pe2))
+
+    return vocab_s, need
+
+
 def run(ctx: Ctx, rep: Report, tier: str) -> None:  # noqa: C901
     ref = _reference()
     folder = ctx.folder
@@ -373,129 +509,7 @@ def run(ctx: Ctx, rep: Report, tier: str) -> None:  # noqa: C901
     memo_rules(ctx, rep, rid="R09.3m", only_class="Protocol")
 
     # ---------------------------------------------------------------- R09.5 splitter vocabulary
-    rep.rule("R09.5")
-    akn = ctx.func("port_name.all_known_names")
-    vocab = folder.fold_straight_function(akn)
-    if not known(vocab) or not isinstance(vocab, (list, set, tuple)):
-        raise AnalysisError("port_name.all_known_names is no longer a foldable straight-line function")
-    vocab_s = set(vocab)
-    rep.instance()
-    need: Dict[str, str] = {}
-    for (proto, plat, major), (tname, table) in sel.items():
-        for name in table:
-            need.setdefault(name, tname)
-    missing = sorted(set(need) - vocab_s)
-    for m in missing:
-        rep.violation(
-            "port_name.all_known_names",
-            f"name {m!r} of {need[m]}",
-            f"port name {m!r} (selectable table {need[m]}) is not in the splitter vocabulary: 'eq {m} log' splits as "
-            f"dstport 'eq' + option '{m} log'",
-            where(akn),
-            inp=f"permit tcp any any eq {m}",
-        )
-    if not missing:
-        rep.ok("all_known_names() ⊇ keys of every selectable table", f"{len(vocab_s)} names cover {len(need)} needed")
-    sp = ctx.func("parsers._parse_dstport_option")
-    uses = False
-    for p in function_paths(ctx.cfg(sp), include_raise=False):
-        for test, truth in p.atoms:
-            for x in ast.walk(test):
-                if isinstance(x, ast.Compare) and any(isinstance(o, ast.In) for o in x.ops):
-                    rhs = resolve_local(x.comparators[0], p.env)
-                    if isinstance(rhs, ast.Call):
-                        r = ctx.prog.resolve_name(sp.module, rhs.func.id) if isinstance(rhs.func, ast.Name) else None
-                        if r is akn:
-                            uses = True
-    if not uses:
-        # the membership test may sit in a local predicate / lambda / comprehension (takewhile(is_port, words))
-        from .common import single_env
-
-        senv = single_env(sp.node)
-        for x in ast.walk(sp.node):
-            if isinstance(x, ast.Compare) and any(isinstance(o, ast.In) for o in x.ops):
-                rhs = x.comparators[0]
-                if isinstance(rhs, ast.Name) and rhs.id in senv:
-                    rhs = senv[rhs.id]
-                if isinstance(rhs, ast.Call) and isinstance(rhs.func, ast.Name) and ctx.prog.resolve_name(sp.module, rhs.func.id) is akn:
-                    uses = True
-    rep.instance()
-    if uses:
-        rep.ok("parsers._parse_dstport_option", "classifies tokens by membership in all_known_names()", where=where(sp))
-    else:
-        rep.violation("parsers._parse_dstport_option", "port/option classification", "the dstport/option splitter no longer tests tokens against all_known_names()", where(sp))
-
-    # a token ends the destination port list only when it is neither a number nor a known name
-    rep.instance()
-    spcfg = ctx.cfg(sp)
-    from .common import loop_body_paths as _lbp, deep_resolve as _dr
-
-    def _is_member_test(t: ast.AST, env) -> bool:
-        rt = _dr(t, env)
-        return isinstance(rt, ast.Compare) and len(rt.ops) == 1 and isinstance(rt.ops[0], ast.In)
-
-    judged = 0
-    bad_path = None
-    for lp in [n for n in spcfg.live if n.kind == "for"]:
-        tvars = {x.id for x in ast.walk(lp.ast.target) if isinstance(x, ast.Name)}
-        for path in _lbp(spcfg, lp):
-            ends = any(nd.kind == "stmt" and isinstance(nd.ast, ast.Break) for nd, _ in path)
-            if not ends:
-                continue
-            judged += 1
-            atoms = [(nd.ast, lab == "T") for nd, lab in path if nd.kind == "cond" and lab in ("T", "F")]
-            not_digit = any(isinstance(t, ast.Call) and isinstance(t.func, ast.Attribute) and t.func.attr == "isdigit" and not tr for t, tr in atoms)
-            not_name = any(isinstance(t, ast.Compare) and len(t.ops) == 1 and isinstance(t.ops[0], ast.In) and not tr and any(isinstance(x, ast.Name) and (x.id in tvars or True) for x in ast.walk(t.left)) for t, tr in atoms)
-            if not (not_digit and not_name):
-                bad_path = (lp, atoms)
-    preds = []
-    for n in ast.walk(sp.node):
-        if isinstance(n, ast.Call) and src(n.func).split(".")[-1] in ("takewhile", "dropwhile") and len(n.args) == 2:
-            pr = n.args[0]
-            body = None
-            if isinstance(pr, ast.Lambda):
-                body = pr.body
-            elif isinstance(pr, ast.Name):
-                h_ = next((x for x in ctx.prog.funcs if x.parent is sp and x.name == pr.id), None)
-                if h_ is not None:
-                    rets = [r for r in own_nodes(h_.node) if isinstance(r, ast.Return)]
-                    body = rets[0].value if len(rets) == 1 else None
-            preds.append((n, body))
-    for n, body in preds:
-        judged += 1
-        ok_pred = isinstance(body, ast.BoolOp) and isinstance(body.op, ast.Or) and len(body.values) == 2 and any(isinstance(v, ast.Call) and isinstance(v.func, ast.Attribute) and v.func.attr == "isdigit" for v in body.values) and any(isinstance(v, ast.Compare) and len(v.ops) == 1 and isinstance(v.ops[0], ast.In) for v in body.values)
-        if not ok_pred:
-            bad_path = (n, [])
-    if bad_path is not None:
-        node_, atoms_ = bad_path
-        at = "; ".join(f"{snippet(t, 30)}={'T' if tr else 'F'}" for t, tr in atoms_) or snippet(getattr(node_, "ast", node_), 60)
-        rep.violation("parsers._parse_dstport_option", f"port list ended on [{at}]", "a token can end the destination port list although it was not found to be neither a number nor a known port name: a port name (e.g. 'login') is read as an option", where(sp), inp="permit tcp any any eq 80 login log")
-    elif judged:
-        rep.ok("parsers._parse_dstport_option: end of the port list", "reached only for a token that is neither a number nor a known name", where=where(sp))
-    else:
-        rep.note("R09.5 end-of-port-list rule: no token loop with an early exit and no takewhile predicate found (not judged)")
-
-    # every known name is accepted where the grammar puts a source port (the source side is split by the regex alone)
-    rep.instance()
-    from .c01 import regex_pieces as _rp
-
-    pe2 = ctx.func("parsers.parse_ace_extended")
-    try:
-        full, _pieces = _rp(ctx, pe2)
-    except AnalysisError:
-        full = None
-    if full is not None:
-        import re as _re2
-
-        rejected = []
-        for nm in sorted(vocab_s):
-            m = _re2.match(full, f"permit tcp any eq {nm} any eq {nm}")
-            if not m or f"eq {nm}" not in [str(g or "").strip() for g in m.groups()]:
-                rejected.append(nm)
-        if rejected:
-            rep.violation("parsers.parse_ace_extended", f"source port names {rejected[:8]}{'...' if len(rejected) > 8 else ''}", f"the ACE grammar does not read these known port names as a source port ({len(rejected)} of {len(vocab_s)}): the line the renderer writes for them is refused", where(pe2), inp=f"permit tcp any eq {rejected[0]} any")
-        else:
-            rep.ok("parsers.parse_ace_extended: source port names", f"all {len(vocab_s)} known names are read as a source port", where=where(pe2))
+    vocab_s, need = splitter_vocabulary(ctx, rep, "R09.5", sel)
 
     # ---------------------------------------------------------------- R09.6 no collisions
     rep.rule("R09.6")
